@@ -110,7 +110,13 @@ func (d *ParserCustomData) tryMatchCustomDice(p *parser) (*customDiceMatch, bool
 		return nil, false
 	}
 
-	input := string(p.data[start:])
+	// the text the custom syntaxes look at: normally the parser's input; the whole original input while only its
+	// consumed prefix is compiled again. A match must still end inside what is being compiled.
+	data := p.data
+	if len(d.lookahead) >= len(p.data) {
+		data = d.lookahead
+	}
+	input := string(data[start:])
 
 	for _, item := range d.ctx.CustomDiceInfo {
 		if item == nil {
@@ -119,7 +125,7 @@ func (d *ParserCustomData) tryMatchCustomDice(p *parser) (*customDiceMatch, bool
 
 		if item.parser != nil {
 			stream := &d.stream
-			stream.init(p.data, start)
+			stream.init(data, start)
 			result, err := item.parser(d.ctx, stream)
 			if err != nil {
 				if d.ctx != nil {
@@ -133,7 +139,7 @@ func (d *ParserCustomData) tryMatchCustomDice(p *parser) (*customDiceMatch, bool
 				continue
 			}
 			consumed := stream.Consumed()
-			if consumed <= 0 {
+			if consumed <= 0 || start+consumed > len(p.data) {
 				stream.ResetAttempt()
 				continue
 			}
@@ -175,7 +181,7 @@ func (d *ParserCustomData) tryMatchCustomDice(p *parser) (*customDiceMatch, bool
 		}
 
 		end := loc[1]
-		if end <= 0 {
+		if end <= 0 || start+end > len(p.data) {
 			continue
 		}
 
